@@ -11,6 +11,10 @@
 #include <variant>
 #include <vector>
 
+#include <fcntl.h>
+#include <sys/wait.h>
+#include <unistd.h>
+
 #include <opentelemetry/nostd/function_ref.h>
 #include <opentelemetry/nostd/span.h>
 #include <opentelemetry/nostd/string_view.h>
@@ -61,14 +65,24 @@ std::string q(const std::string &s) { return "'" + vfq::printable(s) + "'"; }
 void run_string_view(vf::Ctx &c) {
   const bool th = c.thorough();
   int group = c.pick("sv-group", 7);
-  const std::string &s = g_strs[c.pick("s", (int)g_strs.size())];
+  // operand index g_strs.size() is the default-constructed view (null data, size 0) on BOTH sides: it then is an operand of
+  // every operation of every group (compare / == / < / find / substr / hash / << / conversion to std::string)
+  static const std::string kNone;
+  const int nstrs = (int)g_strs.size();
+  const int si = c.pick("s", nstrs + 1);
+  const bool s_null = si == nstrs;
+  const std::string &s = s_null ? kNone : g_strs[si];
   const bool binary = group == 1 || group == 2 || group == 3 || group == 6;
-  const std::string &t = binary ? g_strs[c.pick("t", (int)g_strs.size())] : s;
+  const int ti = binary ? c.pick("t", nstrs + 1) : si;
+  const bool t_null = ti == nstrs;
+  const std::string &t = t_null ? kNone : g_strs[ti];
   vfq::HeapStr hs(s), ht(t);  // exact-size blocks without NUL: an over-read is an ASan report
   CStr ct(t);
   const std::string stt(t);
-  const nostd::string_view ns = hs.view(), nt = ht.view();
-  const std::string_view ss(ns.data(), ns.size()), st(nt.data(), nt.size());
+  const nostd::string_view ns = s_null ? nostd::string_view() : hs.view(), nt = t_null ? nostd::string_view() : ht.view();
+  const std::string_view ss = s_null ? std::string_view() : std::string_view(ns.data(), ns.size()), st = t_null ? std::string_view() : std::string_view(nt.data(), nt.size());
+  const std::string qs = s_null ? std::string("<default-constructed view>") : q(s), qt = t_null ? std::string("<default-constructed view>") : q(t);
+  if (s_null || t_null) c.counted("string_view_null_operand");
   std::string out;  // results, for the outcome / state counters
   uint64_t n = 0;
   // SAME(got, want, sig, what): `what` (a std::string expression) is only evaluated when the results differ
@@ -94,30 +108,30 @@ void run_string_view(vf::Ctx &c) {
       CStr cs(s);
       nostd::string_view nc(cs.p);
       std::string_view sc(cs.p);
-      SAME(I(nc.size()) + I(nc.data() == cs.p), I(sc.size()) + I(sc.data() == cs.p), "C20:string_view:ctor", "string_view(const char*) of " + q(s));
+      SAME(I(nc.size()) + I(nc.data() == cs.p), I(sc.size()) + I(sc.data() == cs.p), "C20:string_view:ctor", "string_view(const char*) of " + qs);
       std::string str(s);
       nostd::string_view nstr(str);
       std::string_view sstr(str);
-      SAME(I(nstr.size()) + I(nstr.data() == str.data()), I(sstr.size()) + I(sstr.data() == str.data()), "C20:string_view:ctor", "string_view(std::string) of " + q(s));
-      SAME(I(ns.size()) + I(ns.length()) + I(ns.empty()) + I(ns.end() - ns.begin()) + I(ns.begin() == ns.data()),
-           I(ss.size()) + I(ss.length()) + I(ss.empty()) + I(ss.end() - ss.begin()) + I(ss.begin() == ss.data()), "C20:string_view:access", "size/length/empty/begin/end of " + q(s));
-      SAME(q(static_cast<std::string>(ns)), q(std::string(ss)), "C20:string_view:access", "conversion to std::string of " + q(s));
+      SAME(I(nstr.size()) + I(nstr.data() == str.data()), I(sstr.size()) + I(sstr.data() == str.data()), "C20:string_view:ctor", "string_view(std::string) of " + qs);
+      SAME(I(ns.size()) + I(ns.length()) + I(ns.empty()) + I(ns.end() - ns.begin()) + I(ns.begin() == ns.data()) + I(ns.data() == nullptr),
+           I(ss.size()) + I(ss.length()) + I(ss.empty()) + I(ss.end() - ss.begin()) + I(ss.begin() == ss.data()) + I(ss.data() == nullptr), "C20:string_view:access", "size/length/empty/begin/end of " + qs);
+      SAME(q(static_cast<std::string>(ns)), q(std::string(ss)), "C20:string_view:access", "conversion to std::string of " + qs);
       nostd::string_view nm = ns;  // operator[] is non-const
       std::string a, b;
       for (size_t i = 0; i < s.size(); ++i) { a += nm[i]; b += ss[i]; }
-      SAME(q(a), q(b), "C20:string_view:access", "operator[] over " + q(s));
+      SAME(q(a), q(b), "C20:string_view:access", "operator[] over " + qs);
       a.clear(); b.clear();
       for (char ch : ns) a += ch;
       for (char ch : ss) b += ch;
-      SAME(q(a), q(b), "C20:string_view:access", "iteration over " + q(s));
+      SAME(q(a), q(b), "C20:string_view:access", "iteration over " + qs);
       nostd::string_view ncopy(ns);
       nm = nt;
-      SAME(I(ncopy.data() == ns.data()) + I(ncopy.size()) + I(nm.data() == nt.data()), "1" + I(ss.size()) + "1", "C20:string_view:ctor", "copy / assignment of " + q(s));
+      SAME(I(ncopy.data() == ns.data()) + I(ncopy.size()) + I(nm.data() == nt.data()), "1" + I(ss.size()) + "1", "C20:string_view:ctor", "copy / assignment of " + qs);
       break;
     }
     case 1: {  // compare(v), ordering and equality with every operand kind
       c.stage("string_view:compare");
-      std::string w = q(s) + " vs " + q(t);
+      std::string w = qs + " vs " + qt;
       SAME(I(sgn(ns.compare(nt))), I(sgn(ss.compare(st))), "C20:string_view:compare", "compare(string_view) " + w);
       SAME(I(sgn(ns.compare(ct.p))), I(sgn(ss.compare(ct.p))), "C20:string_view:compare-cstr", "compare(const char*) " + w);
       SAME(I(ns < nt) + I(ns > nt), I(ss < st) + I(ss > st), "C20:string_view:order", "operator< / operator> " + w);
@@ -134,7 +148,7 @@ void run_string_view(vf::Ctx &c) {
       c.stage("string_view:compare-pos");
       for (size_t p1 : positions(s.size(), th))
         for (size_t c1 : positions(s.size(), th)) {
-          std::string w = vf::sfmt("(%s,%s) of ", pos_str(p1).c_str(), pos_str(c1).c_str()) + q(s) + " with " + q(t);
+          std::string w = vf::sfmt("(%s,%s) of ", pos_str(p1).c_str(), pos_str(c1).c_str()) + qs + " with " + qt;
           SAME(guarded([&] { return I(sgn(ns.compare(p1, c1, nt))); }), guarded([&] { return I(sgn(ss.compare(p1, c1, st))); }), "C20:string_view:compare-pos", "compare(pos1,count1,v) " + w);
           SAME(guarded([&] { return I(sgn(ns.compare(p1, c1, ct.p))); }), guarded([&] { return I(sgn(ss.compare(p1, c1, ct.p))); }), "C20:string_view:compare-pos-cstr",
                "compare(pos1,count1,const char*) " + w);
@@ -151,15 +165,15 @@ void run_string_view(vf::Ctx &c) {
           for (size_t p2 : positions(t.size(), th))
             for (size_t c2 : positions(t.size(), false))
               SAME(guarded([&] { return I(sgn(ns.compare(p1, c1, nt, p2, c2))); }), guarded([&] { return I(sgn(ss.compare(p1, c1, st, p2, c2))); }), "C20:string_view:compare-pos2",
-                   vf::sfmt("compare(%s,%s,v,%s,%s) of ", pos_str(p1).c_str(), pos_str(c1).c_str(), pos_str(p2).c_str(), pos_str(c2).c_str()) + q(s) + " with " + q(t));
+                   vf::sfmt("compare(%s,%s,v,%s,%s) of ", pos_str(p1).c_str(), pos_str(c1).c_str(), pos_str(p2).c_str(), pos_str(c2).c_str()) + qs + " with " + qt);
       break;
     }
     case 4: {  // find(ch, pos)
       c.stage("string_view:find");
       for (char ch : std::string("ab\0\xff" "c", 5)) {
-        SAME(I((long long)ns.find(ch)), I((long long)ss.find(ch)), "C20:string_view:find", vf::sfmt("find('\\x%02x') in ", (unsigned char)ch) + q(s));
+        SAME(I((long long)ns.find(ch)), I((long long)ss.find(ch)), "C20:string_view:find", vf::sfmt("find('\\x%02x') in ", (unsigned char)ch) + qs);
         for (size_t p : positions(s.size(), th))
-          SAME(I((long long)ns.find(ch, p)), I((long long)ss.find(ch, p)), "C20:string_view:find", vf::sfmt("find('\\x%02x',%s) in ", (unsigned char)ch, pos_str(p).c_str()) + q(s));
+          SAME(I((long long)ns.find(ch, p)), I((long long)ss.find(ch, p)), "C20:string_view:find", vf::sfmt("find('\\x%02x',%s) in ", (unsigned char)ch, pos_str(p).c_str()) + qs);
       }
       break;
     }
@@ -169,9 +183,9 @@ void run_string_view(vf::Ctx &c) {
       auto show_s = [&](std::string_view v) { return vf::sfmt("+%td/%zu", v.data() - ss.data(), v.size()); };
       for (size_t p : positions(s.size(), th)) {
         const char *sig = p > s.size() ? "C20:string_view:substr-out-of-range" : "C20:string_view:substr";
-        SAME(guarded([&] { return show_n(ns.substr(p)); }), guarded([&] { return show_s(ss.substr(p)); }), sig, vf::sfmt("substr(%s) of ", pos_str(p).c_str()) + q(s));
+        SAME(guarded([&] { return show_n(ns.substr(p)); }), guarded([&] { return show_s(ss.substr(p)); }), sig, vf::sfmt("substr(%s) of ", pos_str(p).c_str()) + qs);
         for (size_t k : positions(s.size(), th))
-          SAME(guarded([&] { return show_n(ns.substr(p, k)); }), guarded([&] { return show_s(ss.substr(p, k)); }), sig, vf::sfmt("substr(%s,%s) of ", pos_str(p).c_str(), pos_str(k).c_str()) + q(s));
+          SAME(guarded([&] { return show_n(ns.substr(p, k)); }), guarded([&] { return show_s(ss.substr(p, k)); }), sig, vf::sfmt("substr(%s,%s) of ", pos_str(p).c_str(), pos_str(k).c_str()) + qs);
       }
       break;
     }
@@ -179,15 +193,15 @@ void run_string_view(vf::Ctx &c) {
       c.stage("string_view:hash");
       size_t h1 = std::hash<nostd::string_view>{}(ns), h2 = std::hash<nostd::string_view>{}(nt);
       ++n;
-      c.check(!(ns == nt) || h1 == h2, "C20:string_view:hash", "equal views hash differently: " + q(s) + " and " + q(t));
-      c.check(!(ss == st) || h1 == h2, "C20:string_view:hash", "views that std::string_view calls equal hash differently: " + q(s) + " and " + q(t));
+      c.check(!(ns == nt) || h1 == h2, "C20:string_view:hash", "equal views hash differently: " + qs + " and " + qt);
+      c.check(!(ss == st) || h1 == h2, "C20:string_view:hash", "views that std::string_view calls equal hash differently: " + qs + " and " + qt);
       out += I(h1 == h2);
       if (h1 == h2 && s != t) c.counted("hash_collisions_of_unequal_strings");
       c.stage("string_view:stream");
       std::ostringstream on, os;
       on << ns << '|' << nt;
       os << ss << '|' << st;
-      SAME(q(on.str()), q(os.str()), "C20:string_view:stream", "operator<< of " + q(s) + " and " + q(t));
+      SAME(q(on.str()), q(os.str()), "C20:string_view:stream", "operator<< of " + qs + " and " + qt);
       break;
     }
   }
@@ -196,7 +210,7 @@ void run_string_view(vf::Ctx &c) {
   c.state(vf::sfmt("sv|%d|", group) + out);
   c.outcome(vf::sfmt("sv|%d|", group) + out);
 #undef SAME
-  if (s.size() >= 2) c.sample(vf::sfmt("string_view group %d on ", group) + q(s) + (binary ? " and " + q(t) : "") + vf::sfmt(": %llu results equal to std::string_view", (unsigned long long)n));
+  if (s.size() >= 2 || s_null || t_null) c.sample(vf::sfmt("string_view group %d on ", group) + qs + (binary ? " and " + qt : "") + vf::sfmt(": %llu results equal to std::string_view", (unsigned long long)n));
 }
 
 // ==================================================================================================
@@ -366,6 +380,158 @@ void run_span(vf::Ctx &c) {
   c.sample(vf::sfmt("span<int,%s> from %s, %d elements at offset %zu: %s", dynamic ? "dynamic" : "static", kSpanCtorName[ctor], e, off, o.c_str()));
 }
 
+// ---- static extent constructed from a source with a different number of elements -------------------------------
+// std::span: undefined.  nostd::span (span.h, class comment): "this implementation chooses to terminate"; the API itself
+// relies on it (span<T,N> built from a buffer whose size is a run-time value).  Index-checked slice model: a view of N
+// elements over E != N elements does not exist.  The construction runs in a forked child whose terminate handler
+// exits with a private code; "rejected" = std::terminate was called or the child aborted; a constructor that RETURNS is
+// the violation.  The matching count (E == N) runs through the same machinery as the control.
+enum { MM_PTR_COUNT, MM_FIRST_LAST, MM_VECTOR, MM_CONST_VECTOR, MM_BOX, MM_CONST_BOX, MM_N };
+const char *const kMismatchName[MM_N] = {"(pointer,count)", "(first,last)", "std::vector&", "const std::vector&", "user container&", "const user container&"};
+
+template <size_t N> void mismatch_construct(int ctor, int *first, size_t e) {
+  switch (ctor) {
+    case MM_PTR_COUNT: { nostd::span<int, N> s(first, e); (void)s; break; }
+    case MM_FIRST_LAST: { nostd::span<int, N> s(first, first + e); (void)s; break; }
+    case MM_VECTOR: { std::vector<int> v(first, first + e); nostd::span<int, N> s(v); (void)s; break; }
+    case MM_CONST_VECTOR: { const std::vector<int> v(first, first + e); nostd::span<const int, N> s(v); (void)s; break; }
+    case MM_BOX: { IntBox box{first, e}; nostd::span<int, N> s(box); (void)s; break; }
+    default: { const IntBox box{first, e}; nostd::span<const int, N> s(box); (void)s; break; }
+  }
+}
+
+enum { CHILD_RETURNED = 7, CHILD_TERMINATE = 42 };
+
+void run_span_mismatch(vf::Ctx &c) {
+  int n = c.pick("span-static-extent", 4);
+  int e = c.pick("span-source-elements", 4);
+  int ctor = c.pick("span-ctor", MM_N);
+  c.stage("span:static-extent-mismatch");
+  HeapInts buf((size_t)e);
+  std::string how = vf::sfmt("span<int,%d> from %s over %d elements", n, kMismatchName[ctor], e);
+  fflush(nullptr);
+  pid_t pid = fork();
+  if (pid < 0) c.fail("C20:harness:fork", "fork failed");
+  if (pid == 0) {
+    if (!c.tracing()) {
+      int nul = open("/dev/null", O_WRONLY);
+      if (nul >= 0) { dup2(nul, 2); close(nul); }
+    }
+    std::set_terminate([] { _exit(CHILD_TERMINATE); });
+    switch (n) {
+      case 0: mismatch_construct<0>(ctor, buf.p, (size_t)e); break;
+      case 1: mismatch_construct<1>(ctor, buf.p, (size_t)e); break;
+      case 2: mismatch_construct<2>(ctor, buf.p, (size_t)e); break;
+      default: mismatch_construct<3>(ctor, buf.p, (size_t)e); break;
+    }
+    _exit(CHILD_RETURNED);
+  }
+  int status = 0;
+  while (waitpid(pid, &status, 0) < 0 && errno == EINTR) {}
+  c.step();
+  const bool returned = WIFEXITED(status) && WEXITSTATUS(status) == CHILD_RETURNED;
+  const bool terminated = WIFEXITED(status) && WEXITSTATUS(status) == CHILD_TERMINATE;
+  const bool aborted = WIFSIGNALED(status) && WTERMSIG(status) == SIGABRT;
+  std::string res = returned ? "constructed" : terminated ? "std::terminate" : aborted ? "abort" : vf::sfmt("status 0x%x", status);
+  if (e == n) {
+    c.check(returned, "C20:span:static-extent-match-rejected", how + ": the matching count was not accepted (" + res + ")");
+  } else {
+    c.check(returned || terminated || aborted, "C20:span:static-extent-mismatch-crash", how + ": neither constructed nor rejected by terminate/abort (" + res + ")");
+    c.check(!returned, e < n ? "C20:span:static-extent-mismatch-accepted:short-source" : "C20:span:static-extent-mismatch-accepted:long-source",
+            how + ": the constructor returned; nostd::span defines this case as std::terminate" + (e < n ? " (the span covers elements the source does not have)" : ""));
+  }
+  std::string canon = vf::sfmt("span-mismatch|%d|%d|%d|", n, e, ctor) + res;
+  c.state(canon);
+  c.outcome(canon);
+  if (e != n) c.sample(how + ": " + res);
+}
+
+// ---- nostd::data / nostd::size / index_sequence (nostd/utility.h) against std::data / std::size ------------------
+static_assert(std::is_same<nostd::make_index_sequence<0>, nostd::index_sequence<>>::value, "make_index_sequence<0>");
+static_assert(std::is_same<nostd::make_index_sequence<1>, nostd::index_sequence<0>>::value, "make_index_sequence<1>");
+static_assert(std::is_same<nostd::make_index_sequence<4>, nostd::index_sequence<0, 1, 2, 3>>::value, "make_index_sequence<4>");
+static_assert(std::is_same<nostd::index_sequence_for<int, char, long>, nostd::index_sequence<0, 1, 2>>::value, "index_sequence_for");
+static_assert(nostd::make_index_sequence<5>::size() == 5 && nostd::index_sequence<>::size() == 0, "integer_sequence::size");
+static_assert(std::is_same<nostd::index_sequence<7>::value_type, size_t>::value && nostd::bool_constant<true>::value && !nostd::bool_constant<false>::value, "value_type / bool_constant");
+
+template <size_t... Is> std::string seq_str(nostd::index_sequence<Is...>) {
+  std::string o;
+  size_t v[] = {Is..., size_t(99)};
+  for (size_t i = 0; i + 1 < sizeof v / sizeof v[0]; ++i) o += vf::sfmt("%zu,", v[i]);
+  return o;
+}
+
+template <size_t E> std::string utility_arrays(vf::Ctx &c) {
+  struct Holder { int a[E]; };  // the array is the whole of an exact-size heap block
+  std::unique_ptr<Holder> h(new Holder);
+  for (size_t i = 0; i < E; ++i) h->a[i] = 500 + (int)i;
+  const Holder &ch = *h;
+  static_assert(std::is_same<decltype(nostd::data(h->a)), decltype(std::data(h->a))>::value && std::is_same<decltype(nostd::data(ch.a)), decltype(std::data(ch.a))>::value, "nostd::data of an array: type");
+  c.check(nostd::data(h->a) == std::data(h->a) && nostd::data(ch.a) == std::data(ch.a), "C20:utility:data:array", vf::sfmt("nostd::data of an int[%zu] is not the first element", E));
+  c.check(nostd::size(h->a) == std::size(h->a) && nostd::size(ch.a) == std::size(ch.a), "C20:utility:size:array",
+          vf::sfmt("nostd::size of an int[%zu] is %zu (const: %zu), std::size gives %zu", E, (size_t)nostd::size(h->a), (size_t)nostd::size(ch.a), (size_t)std::size(h->a)));
+  std::array<int, E> arr{};
+  const std::array<int, E> &carr = arr;
+  c.check(nostd::data(arr) == std::data(arr) && nostd::data(carr) == std::data(carr) && nostd::size(arr) == std::size(arr), "C20:utility:data-size:std-array", vf::sfmt("nostd::data / size of a std::array<int,%zu>", E));
+  c.step(3);
+  return vf::sfmt("arr%zu:%zu:%d;seq:", E, (size_t)nostd::size(h->a), *nostd::data(h->a)) + seq_str(nostd::make_index_sequence<E>{});
+}
+
+void run_utility(vf::Ctx &c) {
+  int kind = c.pick("utility-kind", 6);
+  c.stage("utility");
+  std::string o;
+  switch (kind) {
+    case 0: o = utility_arrays<1>(c); break;
+    case 1: o = utility_arrays<2>(c); break;
+    case 2: o = utility_arrays<3>(c); break;
+    case 3: {  // initializer_list
+      std::initializer_list<int> il = {4, 5, 6};
+      std::initializer_list<int> none;
+      static_assert(std::is_same<decltype(nostd::data(il)), decltype(std::data(il))>::value, "nostd::data of an initializer_list: type");
+      c.check(nostd::data(il) == std::data(il) && nostd::data(il) == il.begin(), "C20:utility:data:initializer-list", "nostd::data(initializer_list) is not begin()");
+      c.check(nostd::size(il) == std::size(il) && nostd::size(none) == 0, "C20:utility:size:initializer-list", vf::sfmt("nostd::size(initializer_list of 3) is %zu", (size_t)nostd::size(il)));
+      c.check(nostd::data(none) == std::data(none), "C20:utility:data:initializer-list", "nostd::data of an empty initializer_list differs from std::data");
+      c.step(3);
+      o = vf::sfmt("il:%zu:%d", (size_t)nostd::size(il), *nostd::data(il));
+      break;
+    }
+    case 4: {  // standard containers, const and non-const
+      for (size_t e = 0; e < 4; ++e) {
+        std::vector<int> v(e, 3);
+        const std::vector<int> &cv = v;
+        std::string str(e, 'z');
+        const std::string &cstr = str;
+        static_assert(std::is_same<decltype(nostd::data(v)), int *>::value && std::is_same<decltype(nostd::data(cv)), const int *>::value, "nostd::data of a vector: type");
+        static_assert(std::is_same<decltype(nostd::data(str)), char *>::value && std::is_same<decltype(nostd::data(cstr)), const char *>::value, "nostd::data of a string: type");
+        c.check(nostd::data(v) == std::data(v) && nostd::data(cv) == std::data(cv) && nostd::size(v) == std::size(v) && nostd::size(cv) == e, "C20:utility:data-size:vector", vf::sfmt("nostd::data / size of a vector of %zu elements", e));
+        c.check(nostd::data(str) == std::data(str) && nostd::data(cstr) == std::data(cstr) && nostd::size(str) == std::size(str) && nostd::size(cstr) == e, "C20:utility:data-size:string", vf::sfmt("nostd::data / size of a string of %zu characters", e));
+        c.step(2);
+        o += vf::sfmt("v%zu:%zu;", e, (size_t)nostd::size(v));
+      }
+      break;
+    }
+    default: {  // user container (member data()/size()), string_view
+      for (size_t e = 0; e < 4; ++e) {
+        HeapInts buf(e);
+        IntBox box{buf.p, e};
+        const IntBox &cbox = box;
+        static_assert(std::is_same<decltype(nostd::data(box)), int *>::value && std::is_same<decltype(nostd::data(cbox)), const int *>::value, "nostd::data of a user container: type");
+        c.check(nostd::data(box) == buf.p && nostd::data(cbox) == buf.p && nostd::size(box) == e && nostd::size(cbox) == e, "C20:utility:data-size:user-container", vf::sfmt("nostd::data / size of a user container of %zu elements", e));
+        vfq::HeapStr hs(std::string(e, 'q'));
+        nostd::string_view sv = hs.view();
+        c.check(nostd::data(sv) == sv.data() && nostd::size(sv) == e, "C20:utility:data-size:string_view", vf::sfmt("nostd::data / size of a string_view of %zu characters", e));
+        c.step(2);
+        o += vf::sfmt("b%zu:%zu;", e, (size_t)nostd::size(box));
+      }
+      break;
+    }
+  }
+  c.state("utility|" + o);
+  c.outcome("utility|" + o);
+  c.sample("nostd::data / nostd::size / make_index_sequence, case " + o + ": equal to std::data / std::size");
+}
+
 // ==================================================================================================
 // function_ref
 // ==================================================================================================
@@ -382,9 +548,21 @@ struct Doubler {
   void operator()(int &x) { x *= factor; ++factor; }
 };
 
+// assignment of one function_ref to another, if the type offers it (today it does not: the user-declared move constructor
+// deletes the implicit copy assignment; should a release add it, this starts to exercise it)
+template <class F> bool assign_if_offered(F &dst, const F &src) {
+  if constexpr (std::is_copy_assignable<F>::value) {
+    dst = src;
+    return true;
+  } else {
+    (void)dst; (void)src;
+    return false;
+  }
+}
+
 // Calls `direct` (the reference) and `ref` (through function_ref) `calls` times each on twin state.
 void run_function_ref(vf::Ctx &c) {
-  int kind = c.pick("fr-kind", 12);
+  int kind = c.pick("fr-kind", 16);
   int calls = 1 + c.pick("fr-calls", 3);
   int a = c.pick("fr-a", 3) - 1, b = c.pick("fr-b", 2) + 2;
   bool copy = c.flip("fr-copy");  // call through a copy of the function_ref
@@ -485,6 +663,61 @@ void run_function_ref(vf::Ctx &c) {
       want += I(0) + I(0) + I(0) + I(1);
       break;
     }
+    case 12: {  // function pointer whose signature differs from the function_ref's: result int -> long, arguments short/char -> int
+      nostd::function_ref<long(short, char)> f(&free_add);
+      nostd::function_ref<long(short, char)> g(copy ? nostd::function_ref<long(short, char)>(f) : f);
+      FLI h(&free_add);                       // result conversion only
+      c.check(bool(g) && bool(h), "C20:function_ref:bool", "a function_ref bound to a function pointer of a converting signature converts to false");
+      for (int k = 0; k < calls; ++k) {
+        got += I(g(short(a + k), char(b))) + I(h(a + k, b));
+        want += I(long(free_add(short(a + k), char(b)))) + I(long(free_add(a + k, b)));
+      }
+      int (*const cfp)(int, int) = &free_add;  // const-qualified function pointer object
+      FII viaconst(cfp);
+      got += I(viaconst(a, b)); want += I(free_add(a, b));
+      break;
+    }
+    case 13: {  // temporaries as the argument of a function taking a function_ref (the dominant use in the API: ForEachKeyValue etc.)
+      int seen_ref = 0, seen_direct = 0;
+      call_ii([](int x, int y) { return 3 * x - y; });
+      call_ii([&seen_ref](int x, int y) { seen_ref += x * y + 1; return seen_ref; });
+      call_ii(Accumulator{});
+      auto l1 = [](int x, int y) { return 3 * x - y; };
+      auto l2 = [&seen_direct](int x, int y) { seen_direct += x * y + 1; return seen_direct; };
+      Accumulator twin;
+      for (int k = 0; k < calls; ++k) want += I(l1(a + k, b));
+      for (int k = 0; k < calls; ++k) want += I(l2(a + k, b));
+      for (int k = 0; k < calls; ++k) want += I(twin(a + k, b));
+      got += I(seen_ref); want += I(seen_direct);
+      break;
+    }
+    case 14: {  // assignment (only if the type offers it), copies are independent handles to the same callable
+      Accumulator acc1, acc2, twin1, twin2;
+      FII f1(acc1), f2(acc2);
+      FII g(f1);
+      bool offered = assign_if_offered(g, f2);
+      if (!offered) c.counted("function_ref_assignment_not_offered");
+      for (int k = 0; k < calls; ++k) {
+        got += I(g(a + k, b)); want += I((offered ? twin2 : twin1)(a + k, b));
+        got += I(f1(a, b)); want += I(twin1(a, b));
+      }
+      got += I(acc1.calls) + I(acc2.calls); want += I(twin1.calls) + I(twin2.calls);
+      break;
+    }
+    case 15: {  // calling through a const function_ref, through a reference to it, and re-binding by construction from another signature's ref
+      Accumulator acc, twin;
+      const FII cf(acc);
+      const FII &rcf = cf;
+      FII inner(acc);
+      FLI widened(inner);  // a function_ref is itself a callable: function_ref<long(int,int)> bound to a function_ref<int(int,int)> object
+      for (int k = 0; k < calls; ++k) {
+        got += I(cf(a + k, b)); want += I(twin(a + k, b));
+        got += I(rcf(a, b)); want += I(twin(a, b));
+        got += I(widened(a - k, b)); want += I(long(twin(a - k, b)));
+      }
+      got += I(acc.calls); want += I(twin.calls);
+      break;
+    }
   }
   c.step((uint64_t)calls);
   c.check(got == want, "C20:function_ref:result", vf::sfmt("callable kind %d, %d calls, a=%d b=%d%s: through function_ref [%s], direct [%s]", kind, calls, a, b, copy ? " (copied ref)" : "", got.c_str(), want.c_str()));
@@ -546,6 +779,19 @@ struct StdV {
   template <class F, class... Vs> static decltype(auto) visit(F &&f, Vs &&...vs) { return std::visit(std::forward<F>(f), std::forward<Vs>(vs)...); }
   static constexpr size_t size = std::variant_size<V>::value;
   template <size_t I> using alt = std::variant_alternative_t<I, V>;
+  // the overloads for const lvalues, rvalues and const rvalues (separate function templates in both libraries)
+  template <class T> static const T &get_c(const V &v) { return std::get<T>(v); }
+  template <class T> static T &&get_r(V &&v) { return std::get<T>(std::move(v)); }
+  template <class T> static const T &&get_cr(const V &&v) { return std::get<T>(std::move(v)); }
+  template <size_t I> static const alt<I> &geti_c(const V &v) { return std::get<I>(v); }
+  template <size_t I> static alt<I> &&geti_r(V &&v) { return std::get<I>(std::move(v)); }
+  template <size_t I> static const alt<I> &&geti_cr(const V &&v) { return std::get<I>(std::move(v)); }
+  template <class T> static const T *get_if_c(const V *v) { return std::get_if<T>(v); }
+  template <size_t I> static const alt<I> *get_ifi_c(const V *v) { return std::get_if<I>(v); }
+  template <class T, class... A> static V *make_type(A &&...a) { return new V(std::in_place_type<T>, std::forward<A>(a)...); }
+  template <size_t I, class... A> static V *make_index(A &&...a) { return new V(std::in_place_index<I>, std::forward<A>(a)...); }
+  template <class T, class E> static V *make_type_il(std::initializer_list<E> il) { return new V(std::in_place_type<T>, il); }
+  template <size_t I, class E> static V *make_index_il(std::initializer_list<E> il) { return new V(std::in_place_index<I>, il); }
 };
 struct NoV {
   static constexpr int side = 1;
@@ -560,7 +806,26 @@ struct NoV {
   template <class F, class... Vs> static decltype(auto) visit(F &&f, Vs &&...vs) { return nostd::visit(std::forward<F>(f), std::forward<Vs>(vs)...); }
   static constexpr size_t size = nostd::variant_size<V>::value;
   template <size_t I> using alt = nostd::variant_alternative_t<I, V>;
+  template <class T> static const T &get_c(const V &v) { return nostd::get<T>(v); }
+  template <class T> static T &&get_r(V &&v) { return nostd::get<T>(std::move(v)); }
+  template <class T> static const T &&get_cr(const V &&v) { return nostd::get<T>(std::move(v)); }
+  template <size_t I> static const alt<I> &geti_c(const V &v) { return nostd::get<I>(v); }
+  template <size_t I> static alt<I> &&geti_r(V &&v) { return nostd::get<I>(std::move(v)); }
+  template <size_t I> static const alt<I> &&geti_cr(const V &&v) { return nostd::get<I>(std::move(v)); }
+  template <class T> static const T *get_if_c(const V *v) { return nostd::get_if<T>(v); }
+  template <size_t I> static const alt<I> *get_ifi_c(const V *v) { return nostd::get_if<I>(v); }
+  // nostd exports no in_place tags of its own for the variant (nostd::in_place_type_t of nostd/utility.h is a different type);
+  // the constructors take the tags of the vendored absl
+  template <class T, class... A> static V *make_type(A &&...a) { return new V(absl::OTABSL_OPTION_NAMESPACE_NAME::in_place_type<T>, std::forward<A>(a)...); }
+  template <size_t I, class... A> static V *make_index(A &&...a) { return new V(absl::OTABSL_OPTION_NAMESPACE_NAME::in_place_index<I>, std::forward<A>(a)...); }
+  template <class T, class E> static V *make_type_il(std::initializer_list<E> il) { return new V(absl::OTABSL_OPTION_NAMESPACE_NAME::in_place_type<T>, il); }
+  template <size_t I, class E> static V *make_index_il(std::initializer_list<E> il) { return new V(absl::OTABSL_OPTION_NAMESPACE_NAME::in_place_index<I>, il); }
 };
+// result types of the rvalue / const overloads
+static_assert(std::is_same<decltype(nostd::get<5>(std::declval<NoV::V &&>())), std::string &&>::value && std::is_same<decltype(std::get<5>(std::declval<StdV::V &&>())), std::string &&>::value, "get<I>(V&&)");
+static_assert(std::is_same<decltype(nostd::get<std::string>(std::declval<const NoV::V &&>())), const std::string &&>::value, "get<T>(const V&&)");
+static_assert(std::is_same<decltype(nostd::get<2>(std::declval<const NoV::V &>())), const int64_t &>::value, "get<I>(const V&)");
+static_assert(std::is_same<decltype(nostd::get_if<2>(std::declval<const NoV::V *>())), const int64_t *>::value, "get_if<I>(const V*)");
 static_assert(StdV::size == 8 && NoV::size == 8, "variant_size");
 static_assert(std::is_same<NoV::alt<2>, int64_t>::value && std::is_same<NoV::alt<5>, std::string>::value && std::is_same<NoV::alt<0>, nostd::monostate>::value, "variant_alternative_t");
 
@@ -580,10 +845,34 @@ struct Show {  // visitor: type name and value
 struct Show2 {
   template <class A, class B> std::string operator()(const A &a, const B &b) const { return Show{}(a) + "+" + Show{}(b); }
 };
+struct Show3 {
+  template <class A, class B, class C> std::string operator()(const A &a, const B &b, const C &c3) const { return Show{}(a) + "+" + Show{}(b) + "+" + Show{}(c3); }
+};
+struct Cat {  // value category and constness with which the visitor receives the alternative
+  template <class T> std::string operator()(T &&v) const {
+    using U = typename std::remove_reference<T>::type;
+    return std::string(std::is_lvalue_reference<T>::value ? "L" : "R") + (std::is_const<U>::value ? "c:" : "m:") + Show{}(v);
+  }
+};
+struct Take {  // consumes the alternative it is given (only an rvalue visit hands over something that can be moved from)
+  template <class T> std::string operator()(T &&v) const {
+    typename std::decay<T>::type taken(std::forward<T>(v));
+    return Show{}(taken);
+  }
+};
+struct VoidVis {  // visitor returning void
+  std::string *out;
+  template <class T> void operator()(const T &v) const { *out = Show{}(v); }
+};
+struct RefVis {  // visitor returning a reference
+  size_t *cells;
+  template <class T> size_t &operator()(const T &) const { return cells[std::is_arithmetic<T>::value ? 1 : 0]; }
+};
 
 template <class F> struct VWorld {
   using V = typename F::V;
   std::unique_ptr<V> v[2];
+  int emplace_ret = -1;  // last operation was an emplace: 1 = the returned reference is the new alternative inside the variant, 0 = it is not
   VWorld() { v[0].reset(new V()); v[1].reset(new V()); }
 
   template <class T> std::string probe(V &x) {
@@ -641,18 +930,81 @@ template <class F> struct VWorld {
     }
     o += vf::sfmt(" rel=%d%d%d%d%d%d", int(a == b), int(a != b), int(a < b), int(a > b), int(a <= b), int(a >= b));
     o += vf::sfmt(" live=%d", g_live[F::side]);
+    if (emplace_ret >= 0) o += vf::sfmt(" emplace-returns-new-alternative=%d", emplace_ret);
+    return o;
+  }
+
+  // ---- the remaining overloads: const lvalue / rvalue / const rvalue forms of get, get_if, visit; visitors returning void / a reference;
+  // ---- ternary visit.  `tmp` is a copy of x that is only ever cast to an rvalue (get on an rvalue moves nothing by itself).
+  template <class T> std::string probe_forms(V &x, V &tmp) {
+    const V &cx = x;
+    std::string o = F::template holds<T>(cx) ? "h" : "-";
+    const T *p = F::template get_if_c<T>(&cx);
+    o += p ? "p" : "-";
+    o += (p == F::template get_if<T>(&x)) ? "=" : "#";
+    try { const T &r = F::template get_c<T>(cx); o += (&r == p) ? "c" : "C"; } catch (const typename F::bad &) { o += "!"; }
+    T *pt = F::template get_if<T>(&tmp);
+    try { T &&r = F::template get_r<T>(std::move(tmp)); o += (&r == pt) ? "r" : "R"; } catch (const typename F::bad &) { o += "!"; }
+    try { const T &&r = F::template get_cr<T>(static_cast<const V &&>(tmp)); o += (&r == pt) ? "k" : "K"; } catch (const typename F::bad &) { o += "!"; }
+    return o;
+  }
+  template <size_t I> std::string probe_forms_i(V &x, V &tmp) {
+    const V &cx = x;
+    const auto *p = F::template get_ifi_c<I>(&cx);
+    std::string o = p ? "p" : "-";
+    o += (p == F::template get_ifi<I>(&x)) ? "=" : "#";
+    try { const auto &r = F::template geti_c<I>(cx); o += (&r == p) ? "c" : "C"; } catch (const typename F::bad &) { o += "!"; }
+    auto *pt = F::template get_ifi<I>(&tmp);
+    try { auto &&r = F::template geti_r<I>(std::move(tmp)); o += (&r == pt) ? "r" : "R"; } catch (const typename F::bad &) { o += "!"; }
+    try { const auto &&r = F::template geti_cr<I>(static_cast<const V &&>(tmp)); o += (&r == pt) ? "k" : "K"; } catch (const typename F::bad &) { o += "!"; }
+    return o;
+  }
+  template <class Fn> static std::string guarded_visit(Fn fn) {
+    try { return fn(); } catch (const typename F::bad &) { return "!bad_variant_access"; }
+  }
+  std::string describe_forms(V &x, V &y) {
+    const V &cx = x;
+    std::string o = describe(x);
+    int before = g_live[F::side];
+    {
+      V tmp(x);
+      o += " cv:" + probe_forms<typename F::mono>(x, tmp) + probe_forms<bool>(x, tmp) + probe_forms<int64_t>(x, tmp) + probe_forms<uint64_t>(x, tmp) + probe_forms<double>(x, tmp) + probe_forms<std::string>(x, tmp) +
+           probe_forms<Tracked<F::side>>(x, tmp) + probe_forms<Bomb<F::side>>(x, tmp);
+      o += " " + probe_forms_i<0>(x, tmp) + probe_forms_i<1>(x, tmp) + probe_forms_i<2>(x, tmp) + probe_forms_i<3>(x, tmp) + probe_forms_i<4>(x, tmp) + probe_forms_i<5>(x, tmp) + probe_forms_i<6>(x, tmp) + probe_forms_i<7>(x, tmp);
+      o += " idx=" + vf::sfmt("%d/%d", cx.index() == size_t(-1) ? -1 : (int)cx.index(), int(cx.valueless_by_exception()));
+      o += " visit[" + guarded_visit([&] { return F::visit(Cat{}, x); }) + "|" + guarded_visit([&] { return F::visit(Cat{}, cx); }) + "|" + guarded_visit([&] { return F::visit(Cat{}, std::move(tmp)); }) + "|" +
+           guarded_visit([&] { return F::visit(Cat{}, static_cast<const V &&>(tmp)); }) + "]";
+      o += " after-category-visits=" + guarded_visit([&] { return F::visit(Show{}, tmp); });  // receiving an rvalue does not move by itself
+      o += " take=" + guarded_visit([&] { return F::visit(Take{}, std::move(tmp)); }) + " then=" + guarded_visit([&] { return F::visit(Show{}, tmp); });
+      o += " take-const=" + guarded_visit([&] { return F::visit(Take{}, cx); }) + " then=" + guarded_visit([&] { return F::visit(Show{}, cx); });
+    }
+    o += vf::sfmt(" temporaries-destroyed=%d", int(g_live[F::side] == before));
+    std::string out = "(not called)";
+    o += " void=" + guarded_visit([&] { F::visit(VoidVis{&out}, x); return std::string("ok"); }) + ":" + out;
+    out = "(not called)";
+    o += " void-const=" + guarded_visit([&] { F::visit(VoidVis{&out}, cx); return std::string("ok"); }) + ":" + out;
+    size_t cells[2] = {0, 0};
+    o += " ref=" + guarded_visit([&] {
+      size_t &r = F::visit(RefVis{cells}, x);
+      r += 5;
+      return std::string(&r == &cells[0] ? "cell0" : &r == &cells[1] ? "cell1" : "elsewhere");
+    }) + vf::sfmt(":%zu,%zu", cells[0], cells[1]);
+    o += " visit3=" + guarded_visit([&] { return F::visit(Show3{}, x, y, cx); });
+    o += " visit2-mixed=" + guarded_visit([&] { return F::visit(Show2{}, cx, std::move(y)); });  // Show2 takes const references: nothing is moved
     return o;
   }
 
   template <size_t I> void emplace_alt(V &x, int k) {
     using T = typename F::template alt<I>;
-    if constexpr (I == 0) x.template emplace<I>();
-    else if constexpr (I == 1) x.template emplace<I>(k != 0);
-    else if constexpr (I == 2) x.template emplace<I>(k ? INT64_MIN : int64_t(-7));
-    else if constexpr (I == 3) x.template emplace<I>(k ? UINT64_MAX : uint64_t(7));
-    else if constexpr (I == 4) x.template emplace<I>(k ? std::nan("") : 1.5);
-    else if constexpr (I == 5) x.template emplace<T>(k ? std::string("a longer string that does not fit the small buffer") : std::string());
-    else x.template emplace<T>(k ? 2 : 1);
+    T *r = nullptr;  // emplace returns a reference to the new alternative
+    if constexpr (I == 0) r = &x.template emplace<I>();
+    else if constexpr (I == 1) r = &x.template emplace<I>(k != 0);
+    else if constexpr (I == 2) r = &x.template emplace<I>(k ? INT64_MIN : int64_t(-7));
+    else if constexpr (I == 3) r = &x.template emplace<I>(k ? UINT64_MAX : uint64_t(7));
+    else if constexpr (I == 4) r = &x.template emplace<I>(k ? std::nan("") : 1.5);
+    else if constexpr (I == 5) r = &x.template emplace<T>(k ? std::string("a longer string that does not fit the small buffer") : std::string());
+    else r = &x.template emplace<T>(k ? 2 : 1);
+    emplace_ret = (r != nullptr && r == F::template get_ifi<I>(&x)) ? 1 : 0;
   }
   template <size_t I> void assign_alt(V &x, int k) {  // converting assignment from a value of exactly the alternative's type
     using T = typename F::template alt<I>;
@@ -692,6 +1044,7 @@ template <class F> struct VWorld {
   // returns true if the operation threw BombEx
   bool apply(int op, int t, int alt, int k) {
     V &x = *v[t], &y = *v[1 - t];
+    emplace_ret = -1;
     try {
       switch (op) {
         case 0:  // emplace<alt>
@@ -783,6 +1136,86 @@ void run_variant(vf::Ctx &c) {
   c.sample("variant:" + hist + " => " + last);
 }
 
+// ---- depth-1 part: in-place constructors and the const / rvalue / void / reference / ternary forms of get, get_if and visit --------------
+// None of these depends on the history of the variant (a constructor builds a fresh object; the access forms only read the alternative
+// held), so they are enumerated once per (way of construction, alternative, value) instead of after every history.
+template <class F> struct InPlace {
+  using V = typename F::V;
+  template <size_t I> static V *make(bool by_index, int k) {
+    using T = typename F::template alt<I>;
+    auto mk = [&](auto &&...a) -> V * { return by_index ? F::template make_index<I>(a...) : F::template make_type<T>(a...); };
+    if constexpr (I == 0) return mk();
+    else if constexpr (I == 1) return mk(k != 0);
+    else if constexpr (I == 2) return mk(k ? INT64_MIN : int64_t(-7));
+    else if constexpr (I == 3) return mk(k ? UINT64_MAX : uint64_t(7));
+    else if constexpr (I == 4) return mk(k ? std::nan("") : 1.5);
+    else if constexpr (I == 5) return k ? mk(size_t(60), 'x') : mk();  // several constructor arguments / none
+    else return mk(k ? 2 : 1);                                         // explicit constructor of the alternative
+  }
+  static V *make_alt(int alt, bool by_index, int k) {
+    switch (alt) {
+      case 0: return make<0>(by_index, k); case 1: return make<1>(by_index, k); case 2: return make<2>(by_index, k); case 3: return make<3>(by_index, k);
+      case 4: return make<4>(by_index, k); case 5: return make<5>(by_index, k); case 6: return make<6>(by_index, k); default: return make<7>(by_index, k);
+    }
+  }
+};
+
+enum { VF_EMPLACE, VF_IN_PLACE_TYPE, VF_IN_PLACE_INDEX, VF_IN_PLACE_ILIST, VF_VALUELESS, VF_IN_PLACE_THROWS, VF_N };
+const char *const kFormHow[VF_N] = {"emplace on V()", "V(in_place_type<T>, args...)", "V(in_place_index<I>, args...)", "V(in_place, initializer_list)", "valueless by exception", "in-place construction that throws"};
+
+struct FormsResult {
+  std::string basic, forms;
+  bool threw = false;
+};
+template <class F> FormsResult forms_side(int how, int alt, int k, int alt2) {
+  FormsResult r;
+  {
+    VWorld<F> w;
+    try {
+      switch (how) {
+        case VF_EMPLACE: w.apply(0, 0, alt, k); break;
+        case VF_IN_PLACE_TYPE: w.v[0].reset(InPlace<F>::make_alt(alt, false, k)); break;
+        case VF_IN_PLACE_INDEX: w.v[0].reset(InPlace<F>::make_alt(alt, true, k)); break;
+        case VF_IN_PLACE_ILIST: w.v[0].reset(k ? F::template make_index_il<5>(std::initializer_list<char>{'i', 'l', '\0', 'z'}) : F::template make_type_il<std::string>(std::initializer_list<char>{'i', 'l', '\0', 'z'})); break;
+        case VF_VALUELESS: w.apply(0, 0, 5, 1); w.apply(11, 0, 0, 0); break;
+        default: g_armed = true; w.v[0].reset(InPlace<F>::make_alt(7, k != 0, 1)); break;  // Bomb(int) throws: no variant is constructed, the old one stays
+      }
+    } catch (const BombEx &) {
+      r.threw = true;
+    }
+    g_armed = false;
+    w.apply(0, 1, alt2, 1);
+    w.emplace_ret = -1;
+    r.basic = w.describe(*w.v[0]);
+    r.forms = w.describe_forms(*w.v[0], *w.v[1]);
+  }
+  r.forms += vf::sfmt(" live-after-destruction=%d", g_live[F::side]);
+  return r;
+}
+
+void run_variant_forms(vf::Ctx &c) {
+  g_live[0] = g_live[1] = 0;
+  g_armed = false;
+  int how = c.pick("variant-how", VF_N);
+  bool per_alt = how <= VF_IN_PLACE_INDEX;
+  int alt = per_alt ? c.pick("variant-alt", kAlts) : 5;
+  int k = (per_alt && alt == 0) ? 0 : c.pick("variant-value", 2);
+  int alt2 = c.pick("variant-other-alt", kAlts);
+  c.stage("variant:forms");
+  std::string what = std::string(kFormHow[how]) + (per_alt ? vf::sfmt(" of %s#%d", kAltName[alt], k) : vf::sfmt(" #%d", k)) + vf::sfmt(", other variant holds %s", kAltName[alt2]);
+  FormsResult rs = forms_side<StdV>(how, alt, k, alt2);
+  FormsResult rn = forms_side<NoV>(how, alt, k, alt2);
+  c.step();
+  c.check(rs.threw == rn.threw, "C20:variant:exception", what + vf::sfmt(": nostd::variant %s, std::variant %s", rn.threw ? "propagated the exception" : "did not throw", rs.threw ? "propagated it" : "did not throw"));
+  const char *sig = how == VF_EMPLACE ? "C20:variant:alternative-selection" : how == VF_VALUELESS ? "C20:variant:state-after-exception" : "C20:variant:in-place-construction";
+  c.check(rs.basic == rn.basic, sig, what + ": nostd::variant [" + rn.basic + "] vs std::variant [" + rs.basic + "]");
+  c.check(rs.forms == rn.forms, "C20:variant:access-forms", what + ": const / rvalue / void / reference / ternary forms of get, get_if, visit: nostd::variant [" + rn.forms + "] vs std::variant [" + rs.forms + "]");
+  c.check(g_live[0] == 0 && g_live[1] == 0, "C20:variant:leak", what + vf::sfmt(": after destruction %d instances alive under nostd::variant, %d under std::variant", g_live[1], g_live[0]));
+  c.state(vf::sfmt("variant-forms|%d|", how) + rn.forms);
+  c.outcome(vf::sfmt("variant-forms|%d|", how) + rn.forms);
+  c.sample("variant " + what + " => " + rn.forms);
+}
+
 void setup(vf::Options &o) {
   o.split_depth = 3;
   o.deadline_s = o.thorough ? 900 : 100;
@@ -799,11 +1232,14 @@ void setup(vf::Options &o) {
 }
 
 void run(vf::Ctx &c) {
-  switch (c.pick("type", 4)) {
+  switch (c.pick("type", 7)) {
     case 0: run_string_view(c); break;
     case 1: run_span(c); break;
     case 2: run_function_ref(c); break;
-    default: run_variant(c); break;
+    case 3: run_variant(c); break;
+    case 4: run_span_mismatch(c); break;
+    case 5: run_utility(c); break;
+    default: run_variant_forms(c); break;
   }
 }
 
